@@ -172,6 +172,6 @@ package oidc
 //@ spec func jwsAlg(jws *jose.JSONWebSignature) string = ite(len(jws.Signatures) > 0, jws.Signatures[0].Header.Algorithm, "")
 //@ spec func jwsKid(jws *jose.JSONWebSignature) string = ite(len(jws.Signatures) > 0, jws.Signatures[0].Header.KeyID, "")
 //@ func oidc.GetKeyIDAndAlg
-//@   requires jws != nil
+//@   requires valid(jws)
 //@   modifies nothing
 //@   ensures header: result0 == jwsKid(jws) && result1 == jwsAlg(jws)
